@@ -53,7 +53,8 @@ class ForTargetDefCompileHandler(AbstractFuncdefCompileHandler[ExplorerScriptPar
         try:
             linked_to = exps_int(integer_like)  # type: ignore
         except ValueError:
-            linked_to_name = integer_like.name  # type: ignore
+            # (same as the SsbScript compiler: anything that is not an integer is taken as the name of the target)
+            linked_to_name = str(integer_like)
 
         target: ExplorerScriptParser.For_target_def_targetContext = self.ctx.for_target_def_target()
         legacy_deprecated_target = target.FOR_TARGET()
